@@ -642,6 +642,7 @@ fn run_case<K: Kind>(st: &mut Stream, stream: &str, base: &Tr<K::O>, ops: &[Op<K
     line.push("|".into());
     for op in ops { ser_op::<K>(op, &mut line); }
     let line = line.join(" ");
+    mark(0, &line);
     let obs = match guarded(|| execute::<K>(base, ops)) {
         Some(o) => o,
         None => {
